@@ -672,9 +672,13 @@ def gen_sequence(rng, maxlen=30, odd=0.12, cls=0.06, clean_only=False):
 
         def gt():
             gs = gtags()
-            return rng.choice(gs) if gs and rng.random() < 0.75 else t()
+            return rng.choice(gs) if gs and rng.random() < 0.85 else t()
 
         x = rng.random() * 100
+        if 65 <= x < 80 and rng.random() < 0.8:
+            with_groups = [r for r in refs if any(not isinstance(v, (str, type)) and v.groups for v in r[1].tags.values())]
+            if with_groups:
+                ref, obj, depth = rng.choice(with_groups)
         if x < 20:
             emit(["set", ref, t(), g.value(), False])
         elif x < 25:
@@ -693,7 +697,8 @@ def gen_sequence(rng, maxlen=30, odd=0.12, cls=0.06, clean_only=False):
             emit(["isgroup", ref, t()])
         elif x < 65:
             idx = rng.choice([None, None, -1, 0, 1, 2, -2, -3, 5, -7, 100, -100])
-            emit(["addgroup", ref, gt() if rng.random() < 0.7 else t(), g.item(depth + 1, item_refs), idx])
+            y = rng.random()
+            emit(["addgroup", ref, gt() if y < 0.6 else (g.tag() if y < 0.85 else t()), g.item(depth + 1, item_refs), idx])
         elif x < 69:
             emit(["setgroup", ref, t() if rng.random() < 0.5 else g.tag(), g.items(depth + 1, item_refs)])
         elif x < 72:
@@ -721,6 +726,14 @@ def gen_sequence(rng, maxlen=30, odd=0.12, cls=0.06, clean_only=False):
             k = rng.choice([0, 1, 2, 3])
             emit(["query", ref, [t() for _ in range(k)]])
         elif x < 88:
+            free = [n for n in names if n not in impl.store] or names[1:]
+            tw = gen_twin(rng, g, obj) if rng.random() < 0.6 else None
+            if tw is not None:
+                nm = rng.choice(free)
+                if not ref.startswith(nm):
+                    emit(["init", nm, tw])
+                    emit(["eq", ref, nm] if rng.random() < 0.5 else ["eq", nm, ref])
+                    continue
             other = rng.choice(refs)[0]
             emit(["eq", ref, other])
         elif x < 93:
@@ -744,6 +757,59 @@ def gen_sequence(rng, maxlen=30, odd=0.12, cls=0.06, clean_only=False):
             else:
                 emit(["str", ref])
     return seq
+
+
+def literal_of(obj):
+    """a dict literal (JSON form) that rebuilds the content of a live container; None if it holds class objects"""
+    out = []
+    for t, v in obj.tags.items():
+        if isinstance(v, type):
+            return None
+        if isinstance(v, str):
+            out.append([J_s(t), J_s(v)])
+        else:
+            items = []
+            for g in v.groups:
+                sub = literal_of(g)
+                if sub is None:
+                    return None
+                items.append({"dict": sub})
+            out.append([J_s(t), {"list": items}])
+    return out
+
+
+def gen_twin(rng, g, obj):
+    """a near copy of a container: same, permuted, one value changed, one entry dropped / added, nested change"""
+    lit = literal_of(obj)
+    if lit is None:
+        return None
+    x = rng.random()
+    if x < 0.3:
+        pass
+    elif x < 0.55 and len(lit) > 1:
+        rng.shuffle(lit)
+    elif x < 0.7 and lit:
+        i = rng.randrange(len(lit))
+        if not (isinstance(lit[i][1], dict) and "list" in lit[i][1]):
+            lit[i] = [lit[i][0], g.value()]
+        elif lit[i][1]["list"]:
+            items = lit[i][1]["list"]
+            if len(items) > 1 and rng.random() < 0.5:
+                items.reverse()
+            else:
+                items[rng.randrange(len(items))] = {"dict": g.dictlit(3, [], 2)}
+    elif x < 0.8 and lit:
+        del lit[rng.randrange(len(lit))]
+    elif x < 0.9:
+        lit.append([g.tag(), g.value()])
+    else:
+        # merge two plain neighbours into one value the way the rendering would show them
+        for i in range(len(lit) - 1):
+            a, b = lit[i], lit[i + 1]
+            if "s" in a[1] and "s" in b[1]:
+                lit[i: i + 2] = [[a[0], J_s(a[1]["s"] + "|" + to_py(b[0]) + "=" + b[1]["s"])]]
+                break
+    return lit
 
 
 def gen_eqdict(rng, g, obj):
@@ -1422,43 +1488,48 @@ def classify(op, acceptable, observed, impl, ref_before, state_only=False):
     return f"C18-divergence:{cmd}:{what}"
 
 
-def oracle_run(ops):
-    """run one sequence on implementation and reference; -> (n_ops_checked, failure or None)"""
+def oracle_run(ops, all_failures=False):
+    """run one sequence on implementation and reference; -> (n_ops_checked, first failure or None)
+    (with all_failures: the list of failures; the run continues past a failure while both states still agree)"""
     impl, ref = Impl(), RefStore()
-    n = 0
+    n, fails = 0, []
+
+    def done():
+        return (n, fails) if all_failures else (n, fails[0] if fails else None)
+
     for i, op in enumerate(ops):
         ref_before = copy.deepcopy(ref)
         try:
             acceptable = ref.run(op)
-        except OutOfDomain:
-            return n, None
-        except LookupError:
-            return n, None
+        except (OutOfDomain, LookupError):
+            return done()
         try:
             observed, _ = impl.run(op)
         except RecursionError:
-            return n, None
+            return done()
         if observed == "bad-op":
-            return n, None
+            return done()
         n += 1
+        try:
+            got = {nm: (str(o.msg_type) if hasattr(o, "msg_type") else None, impl_canon(o)) for nm, o in impl.store.items()}
+        except OutOfDomain:
+            return done()
+        want = ref.canon_all()
         fail = None
         if acceptable is not None and observed not in acceptable:
-            fail = (classify(op, acceptable, observed, impl, ref_before), f"{op[0]} replied {observed}, the reference ordered map allows {sorted(acceptable)}")
-        else:
-            try:
-                got = {nm: (str(o.msg_type) if hasattr(o, "msg_type") else None, impl_canon(o)) for nm, o in impl.store.items()}
-            except OutOfDomain:
-                return n, None
-            want = ref.canon_all()
-            if got != want:
-                fail = (classify(op, acceptable, observed, impl, ref_before, state_only=True),
-                        f"after {op[0]} (reply {observed}) the containers differ from the reference ordered map")
-                acceptable = {k: canon_dump(v[1]) for k, v in want.items()}
-                observed = {k: canon_dump(v[1]) for k, v in got.items()}
+            fail = {"signature": classify(op, acceptable, observed, impl, ref_before),
+                    "what": f"{op[0]} replied {observed}, the reference ordered map allows {sorted(acceptable)}",
+                    "input": {"ops": ops[: i + 1]}, "expected": sorted(acceptable), "observed": observed}
+        elif got != want:
+            fail = {"signature": classify(op, acceptable, observed, impl, ref_before, state_only=True),
+                    "what": f"after {op[0]} (reply {observed}) the containers differ from the reference ordered map",
+                    "input": {"ops": ops[: i + 1]}, "expected": {k: canon_dump(v[1]) for k, v in want.items()},
+                    "observed": {k: canon_dump(v[1]) for k, v in got.items()}}
         if fail:
-            return n, {"signature": fail[0], "what": fail[1], "input": {"ops": ops[: i + 1]},
-                       "expected": sorted(acceptable) if isinstance(acceptable, set) else acceptable, "observed": observed}
-    return n, None
+            fails.append(fail)
+            if not all_failures or got != want:
+                return done()
+    return done()
 
 
 def gen_oracle_sequence(rng, dirty):
@@ -1506,10 +1577,10 @@ def oracle(ctx, disagreements, broken):
             seqs.append(gen_sequence(ctx.rng) if i % 2 else gen_sequence(ctx.rng, odd=0.35, cls=0.15))
     seen = {}
     for ops in seqs:
-        n, f = oracle_run(ops)
+        n, fs = oracle_run(ops, all_failures=True)
         stats["sequences"] += 1
         stats["ops"] += n
-        if f:
+        for f in fs:
             stats["by_signature"][f["signature"]] = stats["by_signature"].get(f["signature"], 0) + 1
             prev = seen.get(f["signature"])
             if prev is None or len(f["input"]["ops"]) < len(prev["input"]["ops"]):
@@ -1519,16 +1590,16 @@ def oracle(ctx, disagreements, broken):
 
         def still(cand, sig=sig):
             try:
-                r = oracle_run(cand)[1]
+                rs = oracle_run(cand, all_failures=True)[1]
             except Exception:  # noqa
                 return False
-            return r is not None and r["signature"] == sig
+            return any(r["signature"] == sig for r in rs)
 
         small = shrink(ops, still, budget=120)
         if len(small) < len(ops):
-            f2 = oracle_run(small)[1]
-            if f2 and f2["signature"] == sig:
-                f = f2
+            f2 = [r for r in oracle_run(small, all_failures=True)[1] if r["signature"] == sig]
+            if f2:
+                f = f2[0]
         failures.append(f)
     ctx.oracle_stats = stats
     return failures
@@ -1536,6 +1607,6 @@ def oracle(ctx, disagreements, broken):
 
 def replay(ctx, rp):
     ops = rp["input"]["ops"]
-    n, f = oracle_run(ops)
-    print("replay:", json.dumps(ops)[:400], "->", f and (f["signature"], f["observed"]))
-    return f is not None and f["signature"] == rp["signature"]
+    n, fs = oracle_run(ops, all_failures=True)
+    print("replay:", json.dumps(ops)[:400], "->", [(f["signature"], f["observed"]) for f in fs])
+    return any(f["signature"] == rp["signature"] for f in fs)
